@@ -47,6 +47,18 @@ def gen(c):
             for ch in chunks(rng, rng.choice([16, 32, 2 * rout + 3]), rout):
                 lines.append('sp.squeeze kind=%s obj=1 n=%d' % (kind, ch))
             p.case(lines + ['sp.free kind=%s obj=1' % kind], cost=0.6 + ml / 60.0); c.distinct([(kind, 'chunked', rep)])
+    # declared output lengths where the 32-bit bit count in the IV crosses each of its bytes (32, 8192, 2^21 bytes), the 2^29 clamp:
+    # the IV is all that depends on the declared length, so a short squeeze decides it; one-shot 8192 in the thorough tier
+    for L in (31, 33, 8191, 8192, 8193, 16384, 65536, (1 << 21) - 1, 1 << 21, (1 << 24) + 3, (1 << 29) - 1, 1 << 29, (1 << 29) + 1):
+        for kind in ('prf', 'kmac', 'kmaca'):
+            re = rng.randrange(2); k = pattern(rng, 16, 'rand')
+            ini = lambda r: ('sp.init kind=%s obj=1 re=%d key=%s' % (kind, r, hx(k))) + (' variant=fixed outlen=%d' % L if kind == 'prf' else ' custom=%s outlen=%d' % (hx(pattern(rng, 2)), L))
+            lines = [ini(0)]
+            if re: lines += ['sp.absorb kind=%s obj=1 in=%s' % (kind, hx(pattern(rng, 5))), ini(1)]
+            lines += ['sp.absorb kind=%s obj=1 in=%s' % (kind, hx(pattern(rng, rng.choice([0, 7, 33])))), 'sp.squeeze kind=%s obj=1 n=%d' % (kind, rng.choice([16, 24])), 'sp.free kind=%s obj=1' % kind]
+            p.case(lines, cost=0.8); c.distinct([(kind, 'declared', L)])
+    if th:
+        p.case(['os.prf kind=prf_fixed key=%s in=%s n=8192' % (key16(), hx(pattern(rng, 9)))], cost=60.0); c.distinct([('prf_fixed', 'out', 8192)])
     # an object used, re-keyed in place (reinit) and used again equals a fresh one: PRF (both variants), KMAC, HMAC
     for kind in ('prf', 'kmac', 'kmaca', 'hmac', 'hmaca'):
         for rep in range(3 if th else 2):
